@@ -1,6 +1,6 @@
 \* random wide cases (constants of the bounded space unused): see SimNext
 CONSTANTS MaxFiles = 1 MaxItems = 0 Starts = {} ByteLens = {} EntryAddrs = {}
-  CpuSegGran <- CSG_Two Forms <- Forms_Both Filters <- F_Two Creators <- Cr_One
+  CpuSegGran <- CSG_Two Forms <- Forms_Both Filters <- F_Two Creators <- Cr_One Quiets <- Q_No Dev <- D_None
 SPECIFICATION SimSpec
 INVARIANT SimDump
 CHECK_DEADLOCK FALSE
